@@ -174,7 +174,7 @@ fn gen_parked(rng: &mut Rng) -> ServerScn {
     ServerScn {
         resp_buf: 1,
         limit: None,
-        link: LinkCfg { cap: 1, coupled: true, sticky: true, faults: vec![] },
+        link: LinkCfg { cap: 1, coupled: true, sticky: true, faults: vec![], explicit_flush: false },
         stalls: vec![(0, rng.range(4, 25))],
         script,
         handlers,
@@ -205,7 +205,7 @@ fn gen_flood(rng: &mut Rng) -> ServerScn {
     ServerScn {
         resp_buf: 100,
         limit: Some(limit),
-        link: LinkCfg { cap: 0, coupled: true, sticky: true, faults: vec![] },
+        link: LinkCfg { cap: 0, coupled: true, sticky: true, faults: vec![], explicit_flush: false },
         stalls: vec![],
         script,
         handlers,
@@ -227,8 +227,17 @@ pub fn gen(rng: &mut Rng, focus: SFocus) -> ServerScn {
     if focus == SFocus::Limit && rng.chance(40) {
         return gen_flood(rng);
     }
+    if focus == SFocus::Extreme && rng.chance(20) {
+        return gen_cancel_flood(rng);
+    }
+    if focus == SFocus::Deadlines && rng.chance(1) {
+        return gen_mega(rng);
+    }
     if focus == SFocus::Limit && rng.chance(40) {
         return gen_prebusy(rng);
+    }
+    if focus == SFocus::Limit && rng.chance(40) {
+        return gen_limit_backpressure(rng);
     }
     let n = rng.range(1, if focus == SFocus::Limit { 8 } else { 6 }) as usize;
     let small = [1usize, 2, 3];
@@ -417,7 +426,7 @@ pub fn gen(rng: &mut Rng, focus: SFocus) -> ServerScn {
     ServerScn {
         resp_buf,
         limit,
-        link: LinkCfg { cap, coupled, sticky: faults.is_empty() || rng.chance(600), faults },
+        link: LinkCfg { cap, coupled, sticky: faults.is_empty() || rng.chance(600), faults, explicit_flush: coupled && cap > 0 && rng.chance(300) },
         stalls,
         script,
         handlers,
@@ -436,6 +445,121 @@ pub fn gen(rng: &mut Rng, focus: SFocus) -> ServerScn {
         } else {
             vec![]
         },
+        pre_read: 0,
+    }
+}
+
+/// More than a thousand requests in flight at once, most of them answered (the late ones
+/// first, the earliest ones last), the rest left to their deadline: every one of those must be
+/// aborted at its deadline, none before.
+fn gen_mega(rng: &mut Rng) -> ServerScn {
+    let n = rng.range(1100, 1300) as usize;
+    let keep_from = rng.range(110, 150) as usize;
+    let keep_to = rng.range(260, 300) as usize;
+    let deadline = *rng.pick(&[60i64, 100]);
+    let mut script = Vec::new();
+    let mut handlers = Vec::new();
+    for i in 0..n {
+        script.push(PeerAct { delay_ms: 0, kind: PeerKind::Req { id: IdRef::Fresh, deadline: Dl::Ms(deadline), sampled: false, untraced: false } });
+        let steps = if i >= keep_to {
+            vec![HStep::SleepMs(5)]
+        } else if i < keep_from {
+            vec![HStep::SleepMs(10)]
+        } else {
+            vec![HStep::Never]
+        };
+        handlers.push(HandlerPlan { steps, err: false, run: RunMode::Execute });
+    }
+    ServerScn {
+        resp_buf: 2000,
+        limit: None,
+        link: LinkCfg { cap: 0, coupled: true, sticky: true, faults: vec![], explicit_flush: false },
+        stalls: vec![],
+        script,
+        handlers,
+        eof_at_end: true,
+        drop_stream_at: None,
+        preempt_permille: 0,
+        subscriber: 0,
+        long: false,
+        spurious_permille: 0,
+        jumps: vec![],
+        pre_read: 0,
+    }
+}
+
+/// A flood of cancellations for ids never used, delivered in one burst around one live request
+/// (whatever a peer sends, the endpoint neither panics nor dies another death).
+fn gen_cancel_flood(rng: &mut Rng) -> ServerScn {
+    let n = rng.range(1500, 3000) as usize;
+    let mut script = Vec::new();
+    let mut handlers = Vec::new();
+    script.push(PeerAct { delay_ms: 0, kind: PeerKind::Req { id: IdRef::Fresh, deadline: Dl::Ms(1000), sampled: false, untraced: false } });
+    handlers.push(HandlerPlan { steps: vec![HStep::Never], err: false, run: RunMode::Execute });
+    for i in 0..n {
+        script.push(PeerAct { delay_ms: 0, kind: PeerKind::Cancel { of: CancelOf::Unknown(1_000_000 + i as u64) } });
+        handlers.push(HandlerPlan { steps: vec![], err: false, run: RunMode::Execute });
+    }
+    script.push(PeerAct { delay_ms: 0, kind: PeerKind::Cancel { of: CancelOf::Entry(0) } });
+    handlers.push(HandlerPlan { steps: vec![], err: false, run: RunMode::Execute });
+    // a well-formed request afterwards must still be served
+    script.push(PeerAct { delay_ms: 1, kind: PeerKind::Req { id: IdRef::Fresh, deadline: Dl::Ms(1000), sampled: false, untraced: false } });
+    handlers.push(HandlerPlan { steps: vec![], err: false, run: RunMode::Execute });
+    ServerScn {
+        resp_buf: 100,
+        limit: if rng.chance(300) { Some(2) } else { None },
+        link: LinkCfg { cap: 0, coupled: true, sticky: true, faults: vec![], explicit_flush: false },
+        stalls: vec![],
+        script,
+        handlers,
+        eof_at_end: true,
+        drop_stream_at: None,
+        preempt_permille: 0,
+        subscriber: 0,
+        long: false,
+        spurious_permille: 0,
+        jumps: vec![],
+        pre_read: 0,
+    }
+}
+
+/// At the limit behind back-pressure: a one-slot sink still holds an unflushed response while the
+/// sink is stalled, a second response waits in the buffer, the channel is at its limit, and the
+/// Cancel of the request that is still running arrives. When the stall ends, one poll of the
+/// channel flushes, writes the waiting response (the count drops below the limit) and must then
+/// go on to read the Cancel.
+fn gen_limit_backpressure(rng: &mut Rng) -> ServerScn {
+    let t_stall = rng.range(1, 2);
+    let stall_len = rng.range(8, 14);
+    let mut script = Vec::new();
+    let mut handlers = Vec::new();
+    let fin0 = t_stall + rng.range(0, 1);
+    // r0: finishes during the stall, its response is staged in the sink but cannot be flushed
+    script.push(PeerAct { delay_ms: 0, kind: PeerKind::Req { id: IdRef::Fresh, deadline: Dl::Ms(1000), sampled: false, untraced: false } });
+    handlers.push(HandlerPlan { steps: vec![HStep::SleepMs(fin0)], err: false, run: RunMode::Execute });
+    // r1: finishes a little later, its response waits in the response buffer
+    script.push(PeerAct { delay_ms: 0, kind: PeerKind::Req { id: IdRef::Fresh, deadline: Dl::Ms(1000), sampled: false, untraced: false } });
+    handlers.push(HandlerPlan { steps: vec![HStep::SleepMs(fin0 + rng.range(2, 3))], err: false, run: RunMode::Execute });
+    // r2: arrives once r0 is out of the table (limit 2), keeps running
+    script.push(PeerAct { delay_ms: fin0 + 1, kind: PeerKind::Req { id: IdRef::Fresh, deadline: Dl::Ms(1000), sampled: false, untraced: false } });
+    handlers.push(HandlerPlan { steps: vec![HStep::Never], err: false, run: RunMode::Execute });
+    // its Cancel arrives while the channel is at its limit and the sink is not ready
+    script.push(PeerAct { delay_ms: rng.range(2, 4), kind: PeerKind::Cancel { of: CancelOf::Entry(2) } });
+    handlers.push(HandlerPlan { steps: vec![], err: false, run: RunMode::Execute });
+    ServerScn {
+        resp_buf: *rng.pick(&[2usize, 3, 100]),
+        limit: Some(2),
+        link: LinkCfg { cap: 1, coupled: true, sticky: true, faults: vec![], explicit_flush: true },
+        stalls: vec![(t_stall, stall_len)],
+        script,
+        handlers,
+        eof_at_end: true,
+        drop_stream_at: None,
+        preempt_permille: 0,
+        subscriber: 0,
+        long: false,
+        spurious_permille: 0,
+        jumps: vec![],
         pre_read: 0,
     }
 }
@@ -463,7 +587,7 @@ fn gen_prebusy(rng: &mut Rng) -> ServerScn {
     ServerScn {
         resp_buf: 100,
         limit: Some(limit),
-        link: LinkCfg { cap: 0, coupled: true, sticky: true, faults: vec![] },
+        link: LinkCfg { cap: 0, coupled: true, sticky: true, faults: vec![], explicit_flush: false },
         stalls: vec![],
         script,
         handlers,
@@ -1324,7 +1448,12 @@ pub fn build_model(log: &[Ev], node: u8, link: u8) -> ServerModel {
                 (Some(_), None) => true,
                 (Some(f), Some(c)) => f > c || p.exec_done.map(|d| d < c).unwrap_or(false),
             };
-            if p.resp.is_empty() && (buffered || p.unrun.is_some()) {
+            // a request the application dropped unrun leaves a guard cancellation (id only) in
+            // the channel's queue until the channel is polled again: gone once a quiescent point
+            // lies between the drop and the next incarnation's arrival
+            let next_read = m.incs[w[1]].read_seq;
+            let guard_residue = p.unrun.map(|u| !m.idle_between(u, next_read, i64::MIN)).unwrap_or(false);
+            if p.resp.is_empty() && (buffered || guard_residue) {
                 m.unclean.insert(id);
             }
         }
